@@ -607,7 +607,13 @@ def stepReg (st : DState) (args : List String) : Option (DState × String) :=
     | some d, some n =>
       let atok := (a.splitOn "@").headD ""
       match parseQty? r d a with
-      | some (.ok qa) => some (st, showQRes r (q.qtyRound d qa (decPair? atok).isSome n))
+      | some (.ok qa) =>
+        -- a quantised amount is `Decimal(n) * quantum`: a Decimal whenever the
+        -- unit's quantum is one (the generator keeps to such units); otherwise
+        -- the representation is the token's
+        let isDec := if (r.unitQuantum qa.unit).isSome then (decPair? (ratStr qa.amount)).isSome
+                     else (decPair? atok).isSome
+        some (st, showQRes r (q.qtyRound d qa isDec n))
       | some (.error e) => some (st, "err " ++ e.name)
       | none => some (st, bad)
     | _, _ => some (st, bad)
